@@ -48,6 +48,7 @@ type Run struct {
 	paths    int
 	start    time.Time
 	only     string
+	onlyKeys map[string]bool // replay: exactly these obligation keys
 	extra    map[string]interface{}
 	fatal    []string
 	dry      bool // no evidence / replay files, terse output
@@ -144,10 +145,10 @@ func (r *Run) Finish(explanation string) int {
 		seen[o.Key] = o
 		obs = append(obs, o)
 	}
-	if r.only != "" {
+	if r.only != "" || len(r.onlyKeys) > 0 {
 		var f []*Obligation
 		for _, o := range obs {
-			if o.Key == r.only || strings.HasPrefix(o.Key, r.only) {
+			if r.only != "" && (o.Key == r.only || strings.HasPrefix(o.Key, r.only)) || r.onlyKeys[o.Key] {
 				f = append(f, o)
 			}
 		}
@@ -237,7 +238,7 @@ func (r *Run) Finish(explanation string) int {
 	for _, k := range rnames {
 		ruleList = append(ruleList, k+": "+r.rules[k])
 	}
-	var fixedNotes []string
+	fixedNotes := []string{}
 	for _, k := range known {
 		if k.Property == r.Property && k.Status == "fixed" {
 			fixedNotes = append(fixedNotes, fmt.Sprintf("fixed: %s %s %s", k.Rule, k.Commit, k.What))
@@ -287,7 +288,7 @@ func (r *Run) Finish(explanation string) int {
 	}
 	b, _ := json.MarshalIndent(ev, "", " ")
 	evPath := filepath.Join(evDir, r.Property+".json")
-	if r.only == "" {
+	if r.only == "" && len(r.onlyKeys) == 0 {
 		if err := os.WriteFile(evPath, b, 0o644); err != nil {
 			fmt.Printf("cannot write evidence: %v\n", err)
 			return 1
